@@ -105,7 +105,7 @@ type mutator struct {
 	other func() []byte // another valid encoding (same or other type) for splicing
 }
 
-const nMutOps = 20
+const nMutOps = 21
 
 // mutate applies one mutation (op chosen at random, possibly inside a nested
 // length-delimited field with the enclosing length prefixes repaired) and
@@ -377,11 +377,51 @@ func (m *mutator) mutate(bz []byte, depth int) ([]byte, string) {
 			cp[i].payload = p
 		}
 		return joinFields(cp), "payload-byte"
+	case 19: // a length-delimited entry for an absent (skipped / reserved / unknown) field number whose
+		// length prefix claims exactly the rest of the enclosing message, or overshoots it by a few bytes
+		present := map[uint64]bool{}
+		maxNum := uint64(0)
+		for _, f := range fs {
+			present[f.num] = true
+			maxNum = max(maxNum, f.num)
+		}
+		var missing []uint64
+		for n := uint64(1); n <= maxNum+2 && n < 40; n++ {
+			if !present[n] {
+				missing = append(missing, n)
+			}
+		}
+		if len(missing) == 0 {
+			return append(append([]byte(nil), bz...), 0x0a, 0x01), "skipped-field-overshoot"
+		}
+		n := missing[rng.IntN(len(missing))]
+		j := 0
+		for j < len(fs) && fs[j].num < n {
+			j++
+		}
+		if rng.IntN(2) == 0 {
+			// as the last entry of the message: nothing follows the payload
+			fs = fs[:j]
+		}
+		rest := joinFields(fs[j:])
+		payload := append(m.rng2(rng.IntN(5)), rest...)
+		nf := wfield{num: n, typ: 2, key: mkKey(n, 2), lenpfx: binary.AppendUvarint(nil, uint64(len(payload)+rng.IntN(3))), payload: payload}
+		cp := append([]wfield(nil), fs[:j]...)
+		cp = append(cp, nf)
+		return joinFields(cp), "skipped-field-overshoot"
 	default: // two mutations in sequence
 		a, op1 := m.mutate(bz, 4)
 		b, op2 := m.mutate(a, 4)
 		return b, op1 + "+" + op2
 	}
+}
+
+func (m *mutator) rng2(n int) []byte {
+	out := make([]byte, n)
+	for i := range out {
+		out[i] = byte(m.rng.IntN(256))
+	}
+	return out
 }
 
 // randomBytes returns a short random string, biased towards plausible keys.
